@@ -651,6 +651,11 @@ pub(crate) fn parse_matcher<'data>(
                 break;
             }
 
+            if input.is_empty() {
+                // Unterminated `extern` block. Report a parse error rather than looping forever.
+                "};".parse_next(input)?;
+            }
+
             // Symbols at the end of `extern` blocks may omit semicolons
             let expect_semicolon = {
                 let remaining = &**input;
@@ -687,9 +692,9 @@ pub(crate) fn parse_matcher<'data>(
         if input.contains(&b'}') {
             take_until(1.., b'}').parse_next(input)?
         } else {
-            // TODO: Clippy bug
-            #[allow(clippy::needless_borrow)]
-            &input
+            // Consume the rest of the input. If we left it unconsumed, an unterminated `extern` block
+            // would make no progress.
+            winnow::token::rest.parse_next(input)?
         }
     } else {
         take_until(1.., b';').parse_next(input)?
